@@ -445,6 +445,44 @@ pub fn families_opt(tier: Tier, _variant: &str, mode: Mode, with_viable: bool) -
             }));
         }
     }
+    // every byte value inserted / substituted at every position of three short documents
+    for (si, seed) in gen::SHORT_SEEDS.iter().enumerate() {
+        let d = dc(&f2[..1]);
+        let seed = seed.as_bytes();
+        v.push(Family::new(&format!("byte-neighbourhood/seed{si}(all 256 values)"), gen::byte_neighbourhood_count(seed), move |idx, ctx| {
+            check_doc(ctx, &gen::byte_neighbourhood(seed, idx), &d)
+        }));
+    }
+    {
+        // a backslash followed by every byte value, alone, inside text and before the closing quote
+        let d = dc(f2);
+        v.push(Family::new("backslash+every-byte", 256, move |x, ctx| {
+            let b = x as u8;
+            for (pre, post) in [(&b""[..], &b""[..]), (b"ab", b"cd"), (b"\\n", b"0000"), (b"", b"\\")] {
+                let mut doc = vec![b'"'];
+                doc.extend_from_slice(pre);
+                doc.push(b'\\');
+                doc.push(b);
+                doc.extend_from_slice(post);
+                doc.push(b'"');
+                check_doc(ctx, &doc, &d);
+                let mut key = b"{".to_vec();
+                key.extend_from_slice(&doc);
+                key.extend_from_slice(b":1}");
+                check_doc(ctx, &key, &d);
+            }
+        }));
+    }
+    {
+        // number literals at the edges of the f64 range
+        let d = dc(f2);
+        let mut docs: Vec<Vec<u8>> = vec![];
+        for n in gen::range_edge_numbers() {
+            docs.push(n.clone().into_bytes());
+            docs.push(format!("[{n},{{\"k\":{n}}}]").into_bytes());
+        }
+        v.push(Family::of_vec("range-edge-numbers", docs, move |doc, ctx| check_doc(ctx, doc, &d)));
+    }
     {
         // every \uXXXX escape as the last thing before the closing quote, the quote being the last
         // byte of the input (and, second framing, followed by whitespace); also after a plain byte
